@@ -18,6 +18,10 @@
      GasWithinSupplied   ... and never exceeds the gas supplied
      DepthBound          at most DepthLimit+1 frames (the transaction-level frame has depth 0)
      NoCrash             reverting never aborts the platform
+     JumpIsFrameLocal    FRAME-LOCAL DETERMINISM: what a frame does is a function of its own code, input and state.  The
+                         frames under one root run different code (code shapes, CallFramesOps); a jump goes on iff its
+                         destination is a JUMPDEST of the code THIS frame runs, else the frame fails (and is a no-op) -
+                         whichever other code (init code of an earlier creation, caller, callee) ran before
 
    Deviation flags reproduce what the code does today / what a careless implementation does (all OFF in the design,
    ON as negative controls):
@@ -25,6 +29,8 @@
      devG  RevertToSnapshot demands contiguous change-log versions per (account, log type) although versions of
            undone logs are never handed out again: a frame that fails after one of its inner calls failed panics.
      DevC  a creation whose code deposit fails reports the failure but is not rolled back (negative control only).
+     DevJ  the jump-destination analysis is cached under a key all init codes share: the analysis of the first init
+           code that jumps answers for every later one under the same root (negative control only).
 
    The world operators are pure and are reused by TraceCallFrames.tla to re-execute what the REAL EVM did. *)
 EXTENDS CallFramesOps
@@ -33,10 +39,16 @@ CONSTANTS InitBal,      \* [Creators -> Nat], or over more of Addrs (a funded ad
           InitStor      \* [Contracts -> [Slots -> Nat]]  storage committed in the parent block
 
 \* ------------------------------------------------------------------ the generator: all executions within bounds
-CONSTANTS Kinds, Vals, SendVals, SuicideTo, G0, MaxDepth, MaxFan, DepthLimit, DevS, DevG, DevC
-VARIABLES w, stack, gs, fan, done, hist
-vars == <<w, stack, gs, fan, done, hist>>
+CONSTANTS Kinds, Vals, SendVals, SuicideTo, G0, MaxDepth, MaxFan, DepthLimit, DevS, DevG, DevC,
+          JumpDests,    \* the classes of jump destinations the frames try (a subset of JumpDestsAll; {}: no jumps)
+          ShapeAt,      \* [CA -> Shapes]: the shape of the code an address holds / of the init code that creates it
+          DevJ
+\* an: the code shapes of the universe (constant; the adapter reads them from the initial state) and - under DevJ only -
+\* the shape whose analysis sits in the cache slot the init codes share (-1: none yet)
+VARIABLES w, stack, gs, fan, done, hist, an
+vars == <<w, stack, gs, fan, done, hist, an>>
 Init == /\ w = World0(DevS, DevG, InitBal, InitStor) /\ stack = <<>> /\ gs = <<>> /\ fan = <<>> /\ done = "" /\ hist = <<>>
+        /\ an = [shape |-> ShapeAt, cache |-> -1]
 Top == stack[Len(stack)]
 Running == done = "" /\ ~w.crash
 \* abstract gas: every action costs one unit, a call passes on all but a quarter (at least one unit kept when
@@ -54,7 +66,7 @@ EnterTop(kind, to, val) ==
   /\ IF kind = "create" THEN Creatable(Sender, to) /\ ~Taken(to) ELSE to \in Contracts
   /\ w' = EnterW(w, kind, Sender, to, val)
   /\ stack' = <<Frame(w, kind, Sender, FALSE, to)>> /\ gs' = <<G0>> /\ fan' = <<0>>
-  /\ hist' = <<<<"Enter", kind, to, val>>>> /\ UNCHANGED done
+  /\ hist' = <<<<"Enter", kind, to, val>>>> /\ UNCHANGED <<done, an>>
 Enter(kind, to, val) ==
   \/ EnterTop(kind, to, val)
   \/ /\ Running /\ stack # <<>> /\ Len(stack) < MaxDepth /\ fan[Len(stack)] < MaxFan /\ gs[Len(stack)] >= 1
@@ -70,7 +82,7 @@ Enter(kind, to, val) ==
         /\ stack' = Append(stack, Frame(w, kind, Top.ctx, Top.ro, to))
         /\ gs' = Append([gs EXCEPT ![n] = g - Pass(g)], Pass(g))
         /\ fan' = Append([fan EXCEPT ![n] = @ + 1], 0)
-     /\ hist' = Append(hist, <<"Enter", kind, to, val>>) /\ UNCHANGED done
+     /\ hist' = Append(hist, <<"Enter", kind, to, val>>) /\ UNCHANGED <<done, an>>
 \* a creation towards an address that holds funds already: refused before anything happens, the gas passed on is gone
 Collide(val) ==
   /\ Running /\ stack # <<>> /\ "create" \in Kinds /\ fan[Len(stack)] < MaxFan /\ gs[Len(stack)] >= 1
@@ -78,15 +90,15 @@ Collide(val) ==
   /\ val \in SendVals /\ val <= w.bal[Top.ctx] /\ Len(stack) <= DepthLimit
   /\ LET n == Len(stack)  g == gs[n] - 1 IN
      /\ gs' = [gs EXCEPT ![n] = g - Pass(g)] /\ fan' = [fan EXCEPT ![n] = @ + 1]
-  /\ hist' = Append(hist, <<"Collide", val>>) /\ UNCHANGED <<w, stack, done>>
+  /\ hist' = Append(hist, <<"Collide", val>>) /\ UNCHANGED <<w, stack, done, an>>
 SStore(s, v) ==
   /\ Running /\ stack # <<>> /\ ~Top.ro /\ gs[Len(stack)] >= 1
   /\ w' = SStoreW(w, Top.ctx, s, v) /\ gs' = [gs EXCEPT ![Len(stack)] = @ - 1]
-  /\ hist' = Append(hist, <<"SStore", s, v>>) /\ UNCHANGED <<stack, fan, done>>
+  /\ hist' = Append(hist, <<"SStore", s, v>>) /\ UNCHANGED <<stack, fan, done, an>>
 Log(x) ==
   /\ Running /\ stack # <<>> /\ ~Top.ro /\ gs[Len(stack)] >= 1
   /\ w' = EventW(w, Top.ctx, "log") /\ gs' = [gs EXCEPT ![Len(stack)] = @ - 1]
-  /\ hist' = Append(hist, <<"Log">>) /\ UNCHANGED <<stack, fan, done>>
+  /\ hist' = Append(hist, <<"Log">>) /\ UNCHANGED <<stack, fan, done, an>>
 Pop(outcome, returned) ==
   LET n == Len(stack) IN
   /\ stack' = SubSeq(stack, 1, n - 1) /\ fan' = SubSeq(fan, 1, n - 1)
@@ -106,26 +118,54 @@ Exit(outcome) ==
   /\ Pop(outcome, CASE outcome = "ok" -> gs[Len(stack)] - (IF Top.k = "create" THEN 1 ELSE 0)
                     [] outcome = "revert" -> gs[Len(stack)]
                     [] OTHER -> 0)
-  /\ hist' = Append(hist, <<"Exit", outcome>>)
+  /\ hist' = Append(hist, <<"Exit", outcome>>) /\ UNCHANGED an
 Suicide(b) ==
   /\ Running /\ stack # <<>> /\ ~Top.ro /\ gs[Len(stack)] >= 1 /\ b \in SuicideTo
   /\ w' = LET w1 == SuicideW(w, Top.ctx, b) IN IF Top.k = "create" THEN CreatedW(w1, Top, FALSE) ELSE w1
   /\ Pop("ok", gs[Len(stack)] - 1)
-  /\ hist' = Append(hist, <<"Suicide", b>>)
+  /\ hist' = Append(hist, <<"Suicide", b>>) /\ UNCHANGED an
+\* ---- jumps.  The code a frame runs is the code of the address it was entered towards (call kinds: the callee's code,
+\* whatever the context; creation: the init code for that address).  Jump(d): the destination is a JUMPDEST of that
+\* code - execution goes on; BadJump(d): it is not - the frame fails like after any other error.
+CodeShape(f) == an.shape[f.to]
+EffShape(f) == IF DevJ /\ f.k = "create" /\ an.cache # -1 THEN an.cache ELSE CodeShape(f)
+Analysed(f) == IF DevJ /\ f.k = "create" /\ an.cache = -1 THEN [an EXCEPT !.cache = CodeShape(f)] ELSE an
+\* (DevJ: a destination behind the end of the analysed code, inside the running code: the lookup leaves the bitmap)
+JumpOutcome(f, d) ==
+  IF d = "far" THEN (IF ~Long(CodeShape(f)) THEN "fail" ELSE IF Long(EffShape(f)) THEN "go" ELSE "crash")
+  ELSE IF JumpValid(EffShape(f), d) THEN "go" ELSE "fail"
+Jump(d) ==
+  /\ Running /\ stack # <<>> /\ d \in JumpDests /\ gs[Len(stack)] >= 1
+  /\ JumpOutcome(Top, d) \in {"go", "crash"}
+  /\ w' = IF JumpOutcome(Top, d) = "crash" THEN [w EXCEPT !.crash = TRUE] ELSE w
+  /\ gs' = [gs EXCEPT ![Len(stack)] = @ - 1] /\ an' = Analysed(Top)
+  /\ hist' = Append(hist, <<"Jump", d>>) /\ UNCHANGED <<stack, fan, done>>
+BadJump(d) ==
+  /\ Running /\ stack # <<>> /\ d \in JumpDests
+  /\ JumpOutcome(Top, d) = "fail"
+  /\ w' = FailW(w, Top) /\ Pop("fail", 0) /\ an' = Analysed(Top)
+  /\ hist' = Append(hist, <<"BadJump", d>>)
 Next == \/ \E k \in Kinds, c \in CA, v \in SendVals : Enter(k, c, v)
         \/ \E v \in SendVals : Collide(v)
         \/ \E s \in Slots, v \in Vals : SStore(s, v)
         \/ \E x \in {0} : Log(x)
         \/ \E o \in Outcomes : Exit(o)
         \/ \E b \in SuicideTo : Suicide(b)
+        \/ \E d \in JumpDests : Jump(d)
+        \/ \E d \in JumpDests : BadJump(d)
 Spec == Init /\ [][Next]_vars
 
 \* ------------------------------------------------------------------ the clauses of C16
+FailedNoop == /\ Obs(w') = Top.snap
+              /\ NEv(w', "fail") \in {Top.nfail, Top.nfail + 1}       \* the recorded failure event, nothing else
+              /\ NEv(w', "create") <= NEv(w, "create")                \* ... and no creation record of the undone frame
 FailedFrameIsNoop ==
-  [][\A o \in Failing : (Exit(o) /\ ~w'.crash) =>
-        /\ Obs(w') = Top.snap
-        /\ NEv(w', "fail") \in {Top.nfail, Top.nfail + 1}             \* the recorded failure event, nothing else
-        /\ NEv(w', "create") <= NEv(w, "create")]_vars                \* ... and no creation record of the undone frame
+  [][/\ \A o \in Failing : (Exit(o) /\ ~w'.crash) => FailedNoop
+     /\ \A d \in JumpDests : (BadJump(d) /\ ~w'.crash) => FailedNoop]_vars
+\* frame-local determinism: a jump goes on iff the destination is a JUMPDEST of the code the frame itself runs
+JumpIsFrameLocal ==
+  [][\A d \in JumpDests : /\ (Jump(d) => (JumpValid(CodeShape(Top), d) /\ ~w'.crash))
+                           /\ (BadJump(d) => ~JumpValid(CodeShape(Top), d))]_vars
 \* a frame that succeeds keeps what it did; a creation adds the code and the platform's creation record, nothing else
 OkKeepsEffects ==
   [][Exit("ok") => IF Top.k = "create" THEN /\ Obs(w') = [Obs(w) EXCEPT !.code[Top.to] = TRUE]
@@ -141,5 +181,5 @@ NoCrash == ~w.crash
 JournalMarksOrdered == \A i \in 1..Len(stack) : stack[i].mark <= Len(w.jr) /\ (i > 1 => stack[i - 1].mark <= stack[i].mark)
 \* code only ever appears at an address through a creation frame that succeeded
 CodeOnlyByCreation == \A c \in Created : w.code[c] => NEv(w, "create") >= 1
-ViewNoHist == <<w, stack, gs, fan, done>>
+ViewNoHist == <<w, stack, gs, fan, done, an>>
 ====
